@@ -18,7 +18,9 @@ auth      wrong-key, no-key and hostile raw clients; none may get a request
 pool      Pool / AsyncResult / Iterator proxies against sequential results.
 directed  multi-step sequences: alias drop while a lock is held, proxy
           returning methods on rebuilt proxies, nested proxies, unexposed and
-          non-public names, stale tokens, second manager connecting.
+          non-public names, stale tokens, second manager connecting, proxies
+          of one manager stored in an object of another (colliding object
+          ids), methods whose reply cannot be sent back.
 """
 import array
 import copy
